@@ -42,11 +42,19 @@ for d in sorted(glob.glob(f"{V}/seeded/*/")):
                     first = lines[i + 1].strip()[:240]
                     break
             demo_exit = None
+            sibling = None
             if not (o.returncode == 1 and any(l.startswith("VIOLATION") for l in lines)):
+                # a sibling property's check caught it when it was first evaluated: is that still so?
+                for c2, v2 in (meta.get("checks") or {}).items():
+                    if c2 != pid and v2.get("detected"):
+                        o2 = run(f"cd {V} && VERIF_REPO={wt} VERIF_NO_EVIDENCE=1 timeout 1800 ./check {c2} quick")
+                        if o2.returncode == 1 and "VIOLATION" in o2.stdout:
+                            sibling = c2
+                            break
                 # not detected: does the demonstration still fail on the current tree with the change?
                 dm = run(f"cd /tmp && PYTHONPATH={wt}/src timeout 600 /venv/bin/python {d}demo.py")
                 demo_exit = dm.returncode
-            meta["current"] = {"applies": True, "demo_exit_with_patch_now": demo_exit, "check": pid, "exit": o.returncode, "detected": o.returncode == 1 and any(l.startswith("VIOLATION") for l in lines), "first": first, "wall_s": round(time.time() - t, 1), "verif_commit": run(f"git -C {V} rev-parse --short HEAD").stdout.strip()}
+            meta["current"] = {"applies": True, "demo_exit_with_patch_now": demo_exit, "detected_by_sibling": sibling, "check": pid, "exit": o.returncode, "detected": o.returncode == 1 and any(l.startswith("VIOLATION") for l in lines), "first": first, "wall_s": round(time.time() - t, 1), "verif_commit": run(f"git -C {V} rev-parse --short HEAD").stdout.strip()}
     finally:
         run(f"git -C /repo worktree remove --force {wt}")
     json.dump(meta, open(mp, "w"), indent=1)
@@ -62,6 +70,8 @@ with open(f"{V}/seeded/README.md", "w") as f:
             now = m["status_after_fix"]
         elif cur.get("detected"):
             now = "detected"
+        elif cur.get("detected_by_sibling"):
+            now = f"detected by {cur['detected_by_sibling']} (multi-step / neighbouring property), not by {m.get('property')}'s own check"
         elif cur.get("applies") and cur.get("demo_exit_with_patch_now") == 0:
             now = "neutralised: a later fix: commit makes the change harmless (its own demonstration passes with the change applied)"
         elif cur.get("applies"):
